@@ -1,7 +1,6 @@
 package main
 
 import (
-	"regexp"
 	"crypto/sha256"
 	"encoding/hex"
 	"encoding/json"
@@ -11,6 +10,7 @@ import (
 	"os"
 	"os/exec"
 	"path/filepath"
+	"regexp"
 	"runtime/debug"
 	"sort"
 	"strings"
@@ -800,7 +800,7 @@ func finish(prop string, tier, seed int, partial bool, results []HarnessResult, 
 			"harnesses":                     perHarness,
 			"inconclusive":                  inconcl,
 			"violations_confirmed_natively": violationsConfirmed,
-			"known_findings_reported":      knownLines,
+			"known_findings_reported":       knownLines,
 			"explanation":                   "states = symbolic paths explored; transitions = SSA instructions interpreted; each harness is one obligation, discharged iff every assertion and panic VC on every feasible path was unsat, no unwinding assertion failed, and a vcover was reached",
 			"solver":                        "z3 5.1.0 (z3-new -in), push/pop per query; cvc5 1.0 as fallback on unknown",
 		},
